@@ -1837,7 +1837,7 @@ fn plans(prop: &str, tier: &str) -> Vec<Plan> {
             let mut cfgs = Vec::new();
             cfgs.extend(with_lens(Cfg { pre_subs: vec![(Kind::Plain, Policy::Eager)], txn: true, txn_abort: true, oob: true, ..base("C17") }, 0..=3));
             cfgs.extend(with_lens(Cfg { probe: false, txn: true, txn_abort: true, oob: true, ..base("C17") }, 0..=3));
-            out.push(Plan { name: "c17-full", cfgs, depth: if q { 3 } else { 4 } });
+            out.push(Plan { name: "c17-full", cfgs, depth: if q { 4 } else { 5 } });
         }
         "C14" => {
             // wake-up oracles only matter with Manual subscribers that are
@@ -1905,7 +1905,7 @@ fn plans(prop: &str, tier: &str) -> Vec<Plan> {
             for ps in &sub_sets[..3] {
                 cfgs.extend(with_lens(Cfg { pre_subs: ps.clone(), txn: true, txn_abort: true, drop_sub: true, oob: true, ..base("C20") }, 0..=2));
             }
-            out.push(Plan { name: "c20-vec-full", cfgs, depth: if q { 3 } else { 4 } });
+            out.push(Plan { name: "c20-vec-full", cfgs, depth: if q { 4 } else { 5 } });
         }
         _ => {}
     }
